@@ -168,8 +168,10 @@ fn exec(ctx: &mut Ctx, ev: &Ev, rng: &mut Rng) {
             ctx.event(&format!("pair|{}&{}|{}", kind(&ma), kind(&mb), if n > 12 { "wide" } else { "small" }), ev,
                 !ma.contradictory() && !mb.contradictory() && ma.lits() > 0 && mb.lits() > 0);
             let r = guard(|| {
-                let a = ma.real();
-                let b = mb.real();
+                // operands that are results of operations half of the time (CubeM::real_via)
+                let d = ev.digest();
+                let a = ma.real_via(d);
+                let b = mb.real_via(d.rotate_left(29));
                 (a, b, [a & b, &a & b, &a & &b, a & &b], a.implies(b), a.intersects(b), a == b)
             });
             let (a, b, ands, imp, ints, eq) = match r {
@@ -234,7 +236,8 @@ fn exec(ctx: &mut Ctx, ev: &Ev, rng: &mut Rng) {
             let ms: Vec<CubeM> = (0..4).map(|k| cube_at(ev, k)).collect();
             ctx.event("chain|((a&b)&c)&d", ev, true);
             let r = guard(|| {
-                let cs: Vec<Cube> = ms.iter().map(|m| m.real()).collect();
+                let d = ev.digest();
+                let cs: Vec<Cube> = ms.iter().enumerate().map(|(k, m)| m.real_via(d.rotate_left(13 * k as u32))).collect();
                 let left = ((cs[0] & cs[1]) & cs[2]) & cs[3];
                 let right = cs[0] & (cs[1] & (cs[2] & cs[3]));
                 (left, right)
@@ -296,7 +299,7 @@ fn exec(ctx: &mut Ctx, ev: &Ev, rng: &mut Rng) {
             ctx.event(&format!("implies_lut|n={}", n), ev, !m.contradictory() && mf.is_const().is_none());
             let f = Lut::from_blocks(n, &ev.tabs[0]);
             let want = (0..1u64 << n).all(|a| m.contradictory() || !m.sat(a) || mf.bits[a as usize]);
-            match guard(|| m.real().implies_lut(&f)) {
+            match guard(|| m.real_via(ev.digest()).implies_lut(&f)) {
                 Outcome::Returned(got) => {
                     ctx.check("implies-lut", got == want, ev, "implies_lut", || format!("implies_lut = {} expected {} for cube ({:#x},{:#x}) f={:x}", got, want, m.pos, m.neg, ev.tabs[0][0]));
                 }
